@@ -45,12 +45,13 @@ func c15Rules(dir, file string) []c15Rule {
 	}
 }
 
-var c15Msgs = []string{"【必填】姓名不能为空", "“姓名”不能为空", "（必填）", "≥18 岁", "café 菜单", "①必填", "see the explain: column of the form", "年龄说明: 应该在 1-3 之间", "rate must be <= 100%", "折扣需在 5%-50% 之间", "%s %d %v", "ends with semicolon;", "必须正确;", "two trailing;;", "trailing blank ", "must be ok", "必须正确", "age 必须 ok", "x", "必", "a=b", "a|b", "'a,b'", "'必须,正确'", "msg_17"}
+var c15Msgs = []string{"【必填】姓名不能为空", "“姓名”不能为空", "（必填）", "≥18 岁", "café 菜单", "①必填", "see the explain: column of the form", "年龄说明: 应该在 1-3 之间", "rate must be <= 100%", "折扣需在 5%-50% 之间", "%s %d %v", "ends with semicolon;", "必须正确;", "two trailing;;", "trailing blank ", "must be ok", "必须正确", "age 必须 ok", "x", "必", "a=b", "a|b", "'a,b'", "'必须,正确'", "msg_17",
+	"level must be one of (low/mid/high)", "(x)", "a) b (c", "颜色需包含 (red/blue) 之一", " - starts with a blank", "  两个空格开头", " x"}
 
 func init() {
 	core.Register(&core.Prop{
 		ID: "C15",
-		Rule: "(A) every message-capable rule (32 keys, 44 rule/value rows incl. CJK rule values) x 25 messages (CJK after other non-ASCII characters, containing a label word, containing %, ending in ; or a blank, ASCII, CJK, mixed, one rune, with = | and quoted comma) and no message x failing / passing value x carriers {struct tag, struct RM, Var, map, url}, plus every rule with every message on failing values of 256 / 257 / 300 / 5000 bytes, plus required with every message on keys absent from a map / query and on initialised-but-empty and nil collections in struct fields: the clause must show label(msg)+' '+msg verbatim instead of default wording; without message an explain:-labelled non-empty default text; " +
+		Rule: "(A) every message-capable rule (32 keys, 44 rule/value rows incl. CJK rule values) x 32 messages (with round brackets, starting with blanks, CJK after other non-ASCII characters, containing a label word, containing %, ending in ; or a blank, ASCII, CJK, mixed, one rune, with = | and quoted comma) and no message x failing / passing value x carriers {struct tag, struct RM, Var, map, url}, plus every rule with every message on failing values of 256 / 257 / 300 / 5000 bytes, plus required with every message on keys absent from a map / query and on initialised-but-empty and nil collections in struct fields: the clause must show label(msg)+' '+msg verbatim instead of default wording; without message an explain:-labelled non-empty default text; " +
 			"(B) GetOnlyExplainErr applied to real library errors of 1..8 clauses in every order pattern (k<=4 exhaustively, k<=8 random) over {Chinese-labelled, English default, English custom, unknown-rule (unlabelled), rule-writing error (unlabelled)} plus trailing group clauses. distinct = distinct error text fed to the extractor / distinct (rule,msg,carrier,fail) tuple; non-trivial = error with >=1 clause",
 		Shards: func(t core.Tier) int { return 8 },
 		Run:    runC15,
